@@ -429,3 +429,40 @@ func DrawHistory(t *rapid.T, cfg Cfg) History {
 	}
 	return h
 }
+
+// WithoutEarly returns h without the steps before index k that mention network instance ni
+// (as the operation's instance, its group instance or its next-hop instance; a flush loses ni
+// from its list), and the index in the result that corresponds to k. Used by the runners that
+// create ni at runtime at that point.
+func WithoutEarly(h History, ni string, k int) (History, int) {
+	out := History{FwdRefs: h.FwdRefs}
+	at := 0
+	for i, st := range h.Steps {
+		if i == k {
+			at = len(out.Steps)
+		}
+		if i < k {
+			if st.Op != nil {
+				if st.Op.NI == ni || st.Op.GroupNI == ni || st.Op.NHNI == ni || st.Op.Raw != "" {
+					continue
+				}
+			} else {
+				var fl []string
+				for _, n := range st.Flush {
+					if n != ni {
+						fl = append(fl, n)
+					}
+				}
+				if len(fl) == 0 {
+					continue
+				}
+				st.Flush = fl
+			}
+		}
+		out.Steps = append(out.Steps, st)
+	}
+	if k >= len(h.Steps) {
+		at = len(out.Steps)
+	}
+	return out, at
+}
